@@ -125,11 +125,11 @@ def nt_thdm(case):
 
 def subchecks(ctx):
     return [
-        Sub("mssm", mssm_case(), prop_mssm, {"quick": 400, "thorough": 10000},
+        Sub("mssm", mssm_case(), prop_mssm, {"quick": 1000, "thorough": 10000},
             nontrivial=lambda c: True,
             classes=lambda c: ["mssm"],
             rule="on-shell MSSM point; all three uncertainties vs the documented sums; overloads"),
-        Sub("thdm", thdm_case(), prop_thdm, {"quick": 400, "thorough": 10000},
+        Sub("thdm", thdm_case(), prop_thdm, {"quick": 1000, "thorough": 10000},
             nontrivial=nt_thdm,
             classes=lambda c: ["thdm:" + c["p"]["basis"], "type:%d" % c["p"]["yuk"]["type"]],
             rule="THDM mass/gauge point incl. light new physics; uncertainties vs documented sums; overloads"),
